@@ -437,6 +437,116 @@ fn mutations_sweep(part: usize, parts: usize, nodes: usize, max_cuts: usize) -> 
     json!({"inputs": st.inputs, "executions": st.executions, "dev_count": st.dev_count, "devs": st.devs, "corpus": corpus.len(), "distinct_observations": st.distinct_obs.len()})
 }
 
+
+// ------------------------------------------------------------------ long streams: the incremental parser's buffer management
+
+/// payload sizes around the parser's internal thresholds (initial buffer 4096, compaction once more than half is consumed)
+const STREAM_SIZES: [usize; 13] = [0, 1, 100, 2047, 2048, 4095, 4096, 4097, 6000, 8191, 8192, 8193, 20000];
+
+/// compact identity of a frame (kind, length, checksum) so that long streams can be compared cheaply
+fn frame_id(f: &F) -> String {
+    match f {
+        F::BulkString(Some(b)) => format!("bulk[{}]#{:x}", b.len(), b.iter().fold(0xcbf29ce484222325u64, |h, x| (h ^ *x as u64).wrapping_mul(0x100000001b3))),
+        F::Integer(i) => format!(":{}", i),
+        other => format!("{:?}", other),
+    }
+}
+
+/// A long stream is: bulk(s1), 1200 small integer frames (7-8 KB of pipelined frames), bulk(s2), 50 integers - for
+/// every ordered pair (s1, s2) of the size menu. It is fed whole, in fixed chunks of 97 / 512 / 4096 / 8192 / 65536
+/// bytes and in every two-piece split at the ends and the middle of the big frames (+-1), and must always yield exactly
+/// the frames it was built from (a seeded `truncate` in the parser's compaction dropped pipelined bytes only when more
+/// than 4 KiB of unparsed input followed a frame - no short input shows that).
+fn streams_sweep(i1: usize) -> Value {
+    let mut execs = 0u64;
+    let mut inputs = 0u64;
+    let mut devs: Vec<Value> = Vec::new();
+    let s1 = STREAM_SIZES[i1];
+    for (i2, &s2) in STREAM_SIZES.iter().enumerate() {
+        let mut bytes: Vec<u8> = Vec::new();
+        let mut expected: Vec<String> = Vec::new();
+        let mut marks: Vec<usize> = vec![0];
+        let mut push = |f: F, bytes: &mut Vec<u8>, expected: &mut Vec<String>, marks: &mut Vec<usize>, mark: bool| {
+            expected.push(frame_id(&f));
+            bytes.extend(serialize_to_vec(&f).unwrap_or_default());
+            if mark {
+                marks.push(bytes.len());
+            }
+        };
+        let payload = |n: usize, seed: u8| -> Vec<u8> { (0..n).map(|i| (i as u8).wrapping_mul(31).wrapping_add(seed)).collect() };
+        push(F::BulkString(Some(Arc::new(payload(s1, 3)))), &mut bytes, &mut expected, &mut marks, true);
+        marks.push(bytes.len() / 2);
+        for i in 0..1200i64 {
+            push(F::Integer(1000 + i), &mut bytes, &mut expected, &mut marks, i < 2 || i == 600 || i >= 1198);
+        }
+        let before2 = bytes.len();
+        push(F::BulkString(Some(Arc::new(payload(s2, 7)))), &mut bytes, &mut expected, &mut marks, true);
+        marks.push((before2 + bytes.len()) / 2);
+        for i in 0..50i64 {
+            push(F::Integer(-i), &mut bytes, &mut expected, &mut marks, i == 0 || i == 49);
+        }
+        inputs += 1;
+        let mut feedings: Vec<(String, Vec<usize>)> = vec![("whole".into(), vec![])];
+        for cs in [97usize, 512, 4096, 8192, 65536] {
+            let cuts: Vec<usize> = (1..).map(|k| k * cs).take_while(|c| *c < bytes.len()).collect();
+            feedings.push((format!("chunks of {}", cs), cuts));
+        }
+        let mut pts: BTreeSet<usize> = BTreeSet::new();
+        for m in marks.iter() {
+            for d in [-1i64, 0, 1] {
+                let c = *m as i64 + d;
+                if c > 0 && (c as usize) < bytes.len() {
+                    pts.insert(c as usize);
+                }
+            }
+        }
+        for c in pts.iter() {
+            feedings.push((format!("two pieces, cut at {}", c), vec![*c]));
+        }
+        // three pieces: the head of the first bulk alone, then everything up to the middle of the second, then the rest
+        if s1 > 2 {
+            feedings.push(("three pieces".into(), vec![s1 / 2, (before2 + bytes.len()) / 2]));
+        }
+        for (name, cuts) in feedings {
+            execs += 1;
+            let chunks = split(&bytes, &cuts);
+            let got = std::panic::catch_unwind(|| {
+                let mut p = RespParser::new();
+                let mut out: Vec<String> = Vec::new();
+                for c in chunks.iter() {
+                    p.feed(c);
+                    loop {
+                        match p.parse() {
+                            Ok(Some(f)) => out.push(frame_id(&f)),
+                            Ok(None) => break,
+                            Err(e) => {
+                                out.push(format!("E:{}", e));
+                                return out;
+                            }
+                        }
+                        if out.len() > 5000 {
+                            return out;
+                        }
+                    }
+                }
+                out
+            });
+            let problem = match &got {
+                Err(_) => Some("panic".to_string()),
+                Ok(g) if *g == expected => None,
+                Ok(g) => Some(if g.iter().any(|x| x.starts_with("E:")) { "error-on-a-valid-stream".to_string() } else if g.len() < expected.len() { "frames-lost".to_string() } else if g.len() > expected.len() { "frames-from-nowhere".to_string() } else { "frames-differ".to_string() }),
+            };
+            if let Some(pr) = problem {
+                if devs.len() < 200 {
+                    devs.push(json!({"sig": format!("C20|STREAM|{}|{}", pr, if name.starts_with("two pieces") { "two pieces" } else { name.as_str() }), "first_bulk": s1, "second_bulk": s2, "feeding": name, "cuts": cuts.iter().take(8).collect::<Vec<_>>(),
+                        "stream_bytes": bytes.len(), "frames_expected": expected.len(), "frames_got": got.as_ref().map(|g| g.len()).unwrap_or(0), "i": [i1, i2]}));
+                }
+            }
+        }
+    }
+    json!({"inputs": inputs, "executions": execs, "distinct_observations": 0, "devs": devs})
+}
+
 // ------------------------------------------------------------------ totality / no reservation by declared length
 
 fn totality_case(input: &[u8], io: &mut WorkerIo, idx: usize) -> Value {
@@ -552,6 +662,9 @@ pub fn handle(_tier: &str, task: &Value, io: &mut WorkerIo) -> (Value, bool) {
     if let Some(s) = task.get("strings") {
         return (strings_sweep(s["first"].as_u64().unwrap_or(b'+' as u64) as u8, s["maxlen"].as_u64().unwrap_or(3) as usize), false);
     }
+    if let Some(i) = task.get("streams") {
+        return (streams_sweep(i.as_u64().unwrap_or(0) as usize), false);
+    }
     if let Some(s) = task.get("mutations") {
         return (mutations_sweep(s["part"].as_u64().unwrap_or(0) as usize, s["parts"].as_u64().unwrap_or(1) as usize, s["nodes"].as_u64().unwrap_or(2) as usize, s["cuts"].as_u64().unwrap_or(2) as usize), false);
     }
@@ -564,6 +677,13 @@ pub fn handle(_tier: &str, task: &Value, io: &mut WorkerIo) -> (Value, bool) {
         return (r, false);
     }
     if let Some(r) = task.get("replay") {
+        if let Some(i) = r["case"]["i"].as_array() {
+            // a long-stream case: run the streams of its first size again and show what concerns the pair
+            let (i1, i2) = (i[0].as_u64().unwrap_or(0) as usize, i[1].as_u64().unwrap_or(0));
+            let v = streams_sweep(i1);
+            let devs: Vec<Value> = v["devs"].as_array().cloned().unwrap_or_default().into_iter().filter(|d| d["i"][1].as_u64() == Some(i2)).collect();
+            return (json!({"first_bulk": STREAM_SIZES[i1], "second_bulk": STREAM_SIZES[i2 as usize % STREAM_SIZES.len()], "deviations_now": devs}), false);
+        }
         if let Some(hx) = r["input_hex"].as_str() {
             let input: Vec<u8> = (0..hx.len() / 2).map(|i| u8::from_str_radix(&hx[2 * i..2 * i + 2], 16).unwrap_or(0)).collect();
             let whole = observe(&[&input]);
@@ -601,6 +721,9 @@ pub fn parent(tier: &str) -> i32 {
     let parts = 16;
     for p in 0..parts {
         tasks.push(json!({"mutations": {"part": p, "parts": parts, "nodes": if thorough { 3 } else { 2 }, "cuts": if thorough { 3 } else { 2 }}}));
+    }
+    for i in 0..STREAM_SIZES.len() {
+        tasks.push(json!({"streams": i}));
     }
     let ntot = totality_inputs().len();
     for i in 0..ntot {
